@@ -365,6 +365,30 @@ var solvers = []solverSpec{
 	}},
 }
 
+// retrySolvers: the second-chance portfolio. A goal that the default configurations miss is often found at once
+// under another random seed or instantiation strategy (the heuristics are sensitive to the order of assertions);
+// "unsat" from any configuration is as good as from any other.
+var retrySolvers = []solverSpec{
+	{"z3-new/seed1", func(f string, t int) []string {
+		return []string{"z3-new", "-T:" + strconv.Itoa(t), "smt.random_seed=1", "sat.random_seed=1", f}
+	}},
+	{"z3-new/seed2", func(f string, t int) []string {
+		return []string{"z3-new", "-T:" + strconv.Itoa(t), "smt.random_seed=2", "sat.random_seed=2", "smt.arith.random_initial_value=true", f}
+	}},
+	{"z3-new/seed3", func(f string, t int) []string {
+		return []string{"z3-new", "-T:" + strconv.Itoa(t), "smt.random_seed=3", "smt.qi.eager_threshold=50", f}
+	}},
+	{"z3/seed4", func(f string, t int) []string {
+		return []string{"z3", "-T:" + strconv.Itoa(t), "smt.random_seed=4", f}
+	}},
+	{"cvc5/enum", func(f string, t int) []string {
+		return []string{"cvc5", "--tlimit=" + strconv.Itoa(t*1000), "--lang=smt2", "--enum-inst", "--seed=5", f}
+	}},
+	{"cvc5/seed6", func(f string, t int) []string {
+		return []string{"cvc5", "--tlimit=" + strconv.Itoa(t*1000), "--lang=smt2", "--seed=6", f}
+	}},
+}
+
 type solveResult struct {
 	status string
 	solver string
@@ -405,6 +429,10 @@ func runSolver(ctx context.Context, sp solverSpec, file string, timeoutS int) so
 
 // solve races the solvers on one query file.
 func solve(file string, quickS, fullS int) solveResult {
+	return solveWith(solvers, file, quickS, fullS)
+}
+
+func solveWith(solvers []solverSpec, file string, quickS, fullS int) solveResult {
 	var first solveResult
 	_ = quickS
 	ctx, cancel := context.WithCancel(context.Background())
@@ -475,7 +503,7 @@ func dischargeAll(obls []*Obligation, prelude string, par, quickS, fullS int, ke
 	// second chance, one at a time and with a longer limit, for obligations that merely ran out of time
 	// while all cores were busy (a timeout under load must not become an alarm)
 	// (a few at a time: three solvers race per obligation, so par/2 keeps the machine well under full load)
-	rpar := par / 2
+	rpar := par / 3
 	if rpar < 1 {
 		rpar = 1
 	}
@@ -491,7 +519,12 @@ func dischargeAll(obls []*Obligation, prelude string, par, quickS, fullS int, ke
 		go func() {
 			defer rwg.Done()
 			defer func() { <-rsem }()
-			r := solve(o.queryFile, quickS, 2*fullS)
+			// first other seeds/strategies at the normal limit (a goal missed by heuristics is usually found at
+			// once), then the default configurations with twice the time (a goal that merely ran out of time)
+			r := solveWith(retrySolvers, o.queryFile, quickS, fullS)
+			if r.status != "unsat" && r.status != "sat" {
+				r = solve(o.queryFile, quickS, 2*fullS)
+			}
 			if r.status == "unsat" || r.status == "sat" {
 				o.Status, o.Solver, o.TimeS = r.status, r.solver+" (retry)", r.secs
 				if r.status == "sat" {
